@@ -173,8 +173,15 @@ class Accelerator:
         self.jumped = n
 
 
-def sleeps_ok(sl):
-    return (all(F(0.0001) <= F(d) <= CAP for d in sl) and all(F(b) <= 2 * F(a) for a, b in zip(sl, sl[1:])) and (not sl or F(sl[0]) == F(0.0001)))
+def _fr(d):
+    return F(d) if isinstance(d, float) else d          # the real code's sleep lengths are floats; a changed one may pass a symbolic term
+
+
+def sleeps_ok(sl, ctx=None):
+    conds = [F(0.0001) <= _fr(d) for d in sl] + [_fr(d) <= CAP for d in sl] + [_fr(b) <= 2 * _fr(a) for a, b in zip(sl, sl[1:])] + ([_fr(sl[0]) == F(0.0001)] if sl else [])
+    if ctx is not None and any(not isinstance(c, bool) for c in conds):
+        return ctx.all(conds)
+    return all(bool(c) for c in conds)
 
 
 @harness("C15.wait", quick=[dict(role=r, tmo=t, exits=e, eintr=None) for r in ("child", "nonchild") for t in ("sym", "none") for e in (True, False) if not (t == "none" and not e)]
@@ -208,7 +215,7 @@ def wait(ctx, role, tmo, exits, eintr, stolen=False):
             ctx.prove(isinstance(exc, ValueError) and npolls == 0 and not sl and k.naccess_total == n0, "negative-timeout-ValueError")
             return
         ctx.prove(not isinstance(exc, ValueError), "no-ValueError-for-valid-timeout")
-        ctx.prove(sleeps_ok(sl), "sleep-lengths", detail=f"{sl}")
+        ctx.prove(sleeps_ok(sl, ctx), "sleep-lengths", detail=f"{sl}")
         if exc is None:
             gone_at = w.E if w.E is not None else None
             if role == "never":
@@ -250,11 +257,11 @@ def wait(ctx, role, tmo, exits, eintr, stolen=False):
             ctx.prove(ctx.implies(ctx.eq(timeout, 0), len(sl) == 0), "timeout0-never-sleeps")
 
 
-@harness("C15.wait_procs", quick=[dict(n=1, tmo="sym", tmax="15/100"), dict(n=2, tmo="sym", tmax="1/1000"), dict(n=2, tmo="zero", tmax="0"), dict(n=2, tmo="sym", tmax="1/10", never_exit=True),
+@harness("C15.wait_procs", quick=[dict(n=2, tmo="zero", tmax="0", shape="iterator"), dict(n=2, tmo="zero", tmax="0", shape="duplicate"), dict(n=1, tmo="sym", tmax="15/100"), dict(n=2, tmo="sym", tmax="1/1000"), dict(n=2, tmo="zero", tmax="0"), dict(n=2, tmo="sym", tmax="1/10", never_exit=True),
                                    dict(n=3, tmo="sym", tmax="1/10", never_exit=True)],
          thorough=[dict(n=1, tmo="sym", tmax="15/100"), dict(n=2, tmo="sym", tmax="2/100"), dict(n=3, tmo="sym", tmax="1/2000"), dict(n=2, tmo="zero", tmax="0"), dict(n=3, tmo="zero", tmax="0"),
-                   dict(n=2, tmo="none", tmax="1/100")], cap=80)
-def wait_procs(ctx, n, tmo, tmax, never_exit=False):
+                   dict(n=2, tmo="none", tmax="1/100"), dict(n=2, tmo="sym", tmax="1/1000", shape="iterator"), dict(n=2, tmo="sym", tmax="1/1000", shape="duplicate")], cap=80)
+def wait_procs(ctx, n, tmo, tmax, never_exit=False, shape="list"):
     """never_exit: all processes outlive the call (the scenario in which the deadline matters most), which keeps the number of
     paths small enough for timeouts of 0.1 s with 2-3 processes"""
     tmax = F(tmax)
@@ -281,12 +288,17 @@ def wait_procs(ctx, n, tmo, tmax, never_exit=False):
     called = []
     with k.installed(extra=patches):
         procs = [psutil.Process(w.pid) for w in worlds]
+        extra = [psutil.Process(worlds[0].pid)] if shape == "duplicate" else []
         start = k.now
         for w in worlds:
             w.t0, w.started = start, True
-        gone, alive = psutil.wait_procs(procs, timeout=timeout, callback=lambda p: called.append(p))
+        # shape of the input: a list, a one-shot iterator, or a list holding a second, equal object for the first process
+        arg = iter(procs) if shape == "iterator" else procs + extra
+        gone, alive = psutil.wait_procs(arg, timeout=timeout, callback=lambda p: called.append(p))
         end = k.now
-    ctx.prove(len(gone) + len(alive) == n and not (set(gone) & set(alive)) and set(gone) | set(alive) == set(procs), "wait_procs-partition")
+    # equal objects (same process) count as one input; every input is in exactly one of the two lists, once
+    ctx.prove(len(gone) + len(alive) == n and not (set(gone) & set(alive)) and set(gone) | set(alive) == set(procs) and len(set(gone)) == len(gone) and len(set(alive)) == len(alive), "wait_procs-partition",
+              detail=f"shape={shape}: gone={[p.pid for p in gone]} alive={[p.pid for p in alive]}")
     ctx.prove(sorted(id(p) for p in called) == sorted(id(p) for p in gone), "wait_procs-callback-once-per-gone")
     for p in gone:
         w = table[p.pid]
@@ -335,7 +347,7 @@ def long_wait(ctx, role, tmo, exits=True):
     finally:
         me.MAXPOLLS = old_max
     sl = list(k.sleeps)
-    ctx.prove(sleeps_ok(sl), "sleep-lengths", detail=f"{sl}")
+    ctx.prove(sleeps_ok(sl, ctx), "sleep-lengths", detail=f"{sl}")
     ctx.observe("skipped", acc.jumped if not acc.real else 0)
     if exc is None:
         ctx.prove(w.E is not None, "never-early")
